@@ -26,6 +26,7 @@ def run(ctx):
     ctx.count(len(recs), [hash(str(r["chunks"])) for r in recs if nt & set(r["feat"])],
               [{"lvl": r["lvl"], "cap": r["cap"], "chunks": r["chunks"][:4], "feat": r["feat"]} for r in recs[:3]])
     ctx.report(fails, live.confirm_factory(ctx))
+    live.finish(ctx)
 
 
 replay = live.replay
